@@ -2,6 +2,12 @@
    547-690; elf_header_impl::load (elfio_header.hpp:138-144); section_impl::load
    (elfio_section.hpp:426-462); segment_impl::load (elfio_segment.hpp:285-310). *)
 From ElfioV Require Import Bytes Mem Stream SectionData Strings Elfio Table.
+
+Fixpoint map_res {A B} (f : A -> res B) (l : list A) : res (list B) :=
+  match l with
+  | [] => Ok []
+  | x :: t => y <- f x ;; r <- map_res f t ;; Ok (y :: r)
+  end.
 Local Open Scope N_scope.
 
 (* on-disk layouts (field widths in declaration order, after e_ident for the ELF header) *)
@@ -92,50 +98,40 @@ Section WithEnv.
       | None => Fault NullDeref
       end.
 
-  Fixpoint load_sections_loop (fuel : nat) (st : istream) (el : elfio) (enc : endian)
-           (offset entsize : N) (i num : N) (lazy : bool) (allocs : list N)
-    : res (istream * elfio * list N) :=
+  (* the loop of load_sections: sections are accumulated in reverse (the C++
+     vector push_back is constant time; so is this) *)
+  Fixpoint load_sections_loop (fuel : nat) (st : istream) (t : xlat) (c : cls) (enc : endian)
+           (offset entsize : N) (i num : N) (lazy : bool) (racc : list section) (allocs : list N)
+    : res (istream * list section * list N) :=
     match fuel with
-    | O => Ok (st, el, allocs)
+    | O => Ok (st, racc, allocs)
     | S f =>
         if i <? num then
-          '(el1, idx) <- create_section el ;;
-          match get_sec el1 idx with
-          | None => Fault OobRead
-          | Some s0 =>
-              '(st1, s1, al) <- section_load st (el_xlat el1) enc s0 (table_pos offset i entsize) lazy ;;
-              (* sec->set_address( sec->get_address() ) *)
-              let s2 := with_addr s1 (sh_addr s1) in
-              load_sections_loop f st1 (upd_sec el1 idx s2) enc offset entsize (i + 1) num lazy (allocs ++ al)
-          end
-        else Ok (st, el, allocs)
+          let s0 := with_index (new_section c) (wrap16 i) in
+          '(st1, s1, al) <- section_load st t enc s0 (table_pos offset i entsize) lazy ;;
+          (* sec->set_address( sec->get_address() ) *)
+          let s2 := with_addr s1 (sh_addr s1) in
+          load_sections_loop f st1 t c enc offset entsize (i + 1) num lazy (s2 :: racc) (al ++ allocs)
+        else Ok (st, racc, allocs)
     end.
 
-  (* name resolution through e_shstrndx *)
-  Fixpoint resolve_names (fuel : nat) (el : elfio) (shstrndx : N) (i num : N) (allocs : list N)
-    : res (elfio * list N) :=
-    match fuel with
-    | O => Ok (el, allocs)
-    | S f =>
-        if i <? num then
-          match get_sec el i with
-          | None => Fault NullDeref
-          | Some si =>
-              match get_sec el shstrndx with
-              | None => resolve_names f el shstrndx (i + 1) num allocs     (* accessor over nullptr *)
-              | Some st =>
-                  '(sto, st1, al) <- sec_get_data junk (el_stream el) (el_xlat el) st ;;
-                  let el1 := with_stream (upd_sec el shstrndx st1) sto in
-                  r <- get_string_raw (s_data st1) (sh_size st1) (sh_name si) ;;
-                  match get_sec el1 i with
-                  | None => Fault NullDeref
-                  | Some si1 =>
-                      let el2 := match r with Some nm => upd_sec el1 i (with_name si1 nm) | None => el1 end in
-                      resolve_names f el2 shstrndx (i + 1) num (allocs ++ al)
-                  end
-              end
-          end
-        else Ok (el, allocs)
+  (* name resolution through e_shstrndx: the string section's data is
+     requested for every section, but only the first request can change
+     anything (it loads the data or marks it unloadable) *)
+  Definition resolve_names (el : elfio) (shstrndx : N) (allocs : list N) : res (elfio * list N) :=
+    match el_secs el with
+    | [] => Ok (el, allocs)
+    | _ =>
+        match get_sec el shstrndx with
+        | None => Ok (el, allocs)                       (* accessor over nullptr: every lookup is null *)
+        | Some st =>
+            '(sto, st1, al) <- sec_get_data junk (el_stream el) (el_xlat el) st ;;
+            let el1 := with_stream (upd_sec el shstrndx st1) sto in
+            secs <- map_res (fun si =>
+                      r <- get_string_raw (s_data st1) (sh_size st1) (sh_name si) ;;
+                      Ok (match r with Some nm => with_name si nm | None => si end)) (el_secs el1) ;;
+            Ok (with_secs el1 secs, allocs ++ al)
+        end
     end.
 
   Definition load_sections (st : istream) (el : elfio) (lazy : bool) : res (istream * elfio * list N) :=
@@ -149,12 +145,14 @@ Section WithEnv.
         if (negb (num =? 0) && (cb =? 2) && (entsize <? 64)) ||
            (negb (num =? 0) && (cb =? 1) && (entsize <? 40)) then Ok (st, el, [])
         else
-          '(st1, el1, al) <- load_sections_loop (N.to_nat num) st el (e_enc h) offset entsize 0 num lazy [] ;;
-          let el2 := with_stream el1 (Some st1) in
+          let c := if cb =? 2 then C64 else C32 in
+          '(st1, racc, ral) <- load_sections_loop (N.to_nat num) st (el_xlat el) c (e_enc h) offset entsize 0 num lazy [] [] ;;
+          let el2 := with_stream (with_secs el (rev_append racc [])) (Some st1) in
+          let al := rev_append ral [] in
           let shstrndx := e_shstrndx h in
           if shstrndx =? 0 then Ok (st1, el2, al)
           else
-            '(el3, al2) <- resolve_names (N.to_nat num) el2 shstrndx 0 num al ;;
+            '(el3, al2) <- resolve_names el2 shstrndx al ;;
             match el_stream el3 with
             | Some st2 => Ok (st2, el3, al2)
             | None => Fault NullDeref
@@ -195,21 +193,21 @@ Section WithEnv.
          then acc ++ [s_index s] else acc)
       secs [].
 
-  Fixpoint load_segments_loop (fuel : nat) (st : istream) (el : elfio) (enc : endian) (c : cls)
-           (offset entsize : N) (i num : N) (lazy : bool) (allocs : list N)
-    : res (istream * elfio * bool * list N) :=
+  Fixpoint load_segments_loop (fuel : nat) (st : istream) (t : xlat) (secs : list section) (enc : endian) (c : cls)
+           (offset entsize : N) (i num : N) (lazy : bool) (racc : list segment) (allocs : list N)
+    : res (istream * list segment * bool * list N) :=
     match fuel with
-    | O => Ok (st, el, true, allocs)
+    | O => Ok (st, racc, true, allocs)
     | S f =>
         if i <? num then
           let g0 := new_segment c in
-          '(st1, g1, ok, al) <- segment_load st (el_xlat el) enc g0 (table_pos offset i entsize) lazy ;;
-          if negb ok || is_fail st1 then Ok (st1, el, false, allocs ++ al)
+          '(st1, g1, ok, al) <- segment_load st t enc g0 (table_pos offset i entsize) lazy ;;
+          if negb ok || is_fail st1 then Ok (st1, racc, false, al ++ allocs)
           else
             let g2 := seg_with_index g1 (wrap16 i) in
-            let g3 := fold_left (fun g idx => seg_add_section_index g idx 0) (seg_members g2 (el_secs el)) g2 in
-            load_segments_loop f st1 (with_segs el (el_segs el ++ [g3])) enc c offset entsize (i + 1) num lazy (allocs ++ al)
-        else Ok (st, el, true, allocs)
+            let g3 := fold_left (fun g idx => seg_add_section_index g idx 0) (seg_members g2 secs) g2 in
+            load_segments_loop f st1 t secs enc c offset entsize (i + 1) num lazy (g3 :: racc) (al ++ allocs)
+        else Ok (st, racc, true, allocs)
     end.
 
   Definition load_segments (st : istream) (el : elfio) (lazy : bool) : res (istream * elfio * bool * list N) :=
@@ -224,7 +222,9 @@ Section WithEnv.
            (negb (num =? 0) && (cb =? 1) && (entsize <? 32)) then Ok (st, el, false, [])
         else
           let c := if cb =? 2 then C64 else C32 in
-          load_segments_loop (N.to_nat num) st el (e_enc h) c offset entsize 0 num lazy []
+          '(st1, racc, ok, ral) <- load_segments_loop (N.to_nat num) st (el_xlat el) (el_secs el) (e_enc h) c
+                                      offset entsize 0 num lazy [] [] ;;
+          Ok (st1, with_segs el (rev_append racc []), ok, rev_append ral [])
     end.
 
   (* elfio::load( stream, is_lazy ) on a stream holding [content] *)
